@@ -34,7 +34,7 @@ fn plan(tier: Tier) -> Plan {
     let ex = (NTH_RANGE * NTH_RANGE) as u64;
     match tier {
         Tier::Quick => Plan {
-            cases: ex + 60_000,
+            cases: ex + 250_000,
             time_cap_s: 40,
             case_timeout_s: 20,
             exhaustive: false,
